@@ -1,48 +1,91 @@
 /-
-Budget lemmas for `Exec.runQ` (independent of what a poll does) and the effect of `Exec.flush`.
+Budget lemmas for `Exec.runQ` (independent of what a poll does), what `Exec.pop` does, and the effect of
+`Exec.flush`.
 -/
 import Desverif.Model.Exec
 namespace Exec
 
-/-- `n` is exactly the number of polls queue `q` needs from state `s` until it is empty -/
+/-- `n` is exactly the number of polls queue `q` needs from state `s` until `next_task()` finds nothing -/
 def Need (P : Params) (q : Kind) (s : St) (n : Nat) : Prop :=
-  queue q (runQ P q n s) = [] ∧ ∀ m, m < n → queue q (runQ P q m s) ≠ []
+  pop P q (runQ P q n s) = none ∧ ∀ m, m < n → pop P q (runQ P q m s) ≠ none
 
-theorem runQ_of_empty (P : Params) (q : Kind) (b : Nat) (s : St) (h : queue q s = []) :
+theorem runQ_of_empty (P : Params) (q : Kind) (b : Nat) (s : St) (h : pop P q s = none) :
     runQ P q b s = s := by
   cases b with
   | zero => rfl
   | succ b => simp [runQ, h]
 
-theorem runQ_cons (P : Params) (q : Kind) (b : Nat) (s : St) (e : Entry) (r : List Entry)
-    (h : queue q s = e :: r) : runQ P q (b + 1) s = runQ P q b (step P q s) := by
+theorem runQ_cons (P : Params) (q : Kind) (b : Nat) (s : St) (x : Entry × St)
+    (h : pop P q s = some x) : runQ P q (b + 1) s = runQ P q b (step P q s) := by
   simp [runQ, h]
 
-theorem polls_cons (P : Params) (q : Kind) (b : Nat) (s : St) (e : Entry) (r : List Entry)
-    (h : queue q s = e :: r) : polls P q (b + 1) s = polls P q b (step P q s) + 1 := by
+theorem polls_cons (P : Params) (q : Kind) (b : Nat) (s : St) (x : Entry × St)
+    (h : pop P q s = some x) : polls P q (b + 1) s = polls P q b (step P q s) + 1 := by
   simp [polls, h]
 
-/-- once the queue is empty within `n` polls, a larger budget changes nothing -/
+theorem polls_of_empty (P : Params) (q : Kind) (b : Nat) (s : St) (h : pop P q s = none) :
+    polls P q b s = 0 := by
+  cases b with
+  | zero => rfl
+  | succ b => simp [polls, h]
+
+theorem runQn_eq (P : Params) (q : Kind) :
+    ∀ (b : Nat) (s : St), runQn P q b s = (runQ P q b s, polls P q b s) := by
+  intro b
+  induction b with
+  | zero => intro s; rfl
+  | succ b ih =>
+    intro s
+    cases h : pop P q s with
+    | none => simp [runQn, runQ, polls, h]
+    | some x => simp [runQn, runQ, polls, h, ih]
+
+theorem polls_le (P : Params) (q : Kind) : ∀ (b : Nat) (s : St), polls P q b s ≤ b := by
+  intro b
+  induction b with
+  | zero => intro s; simp [polls]
+  | succ b ih =>
+    intro s
+    cases h : pop P q s with
+    | none => simp [polls, h]
+    | some x => rw [polls_cons P q b s x h]; have := ih (step P q s); omega
+
+/-- a loop that did not use its whole budget ended because `next_task()` found nothing -/
+theorem idle_of_polls_lt (P : Params) (q : Kind) :
+    ∀ (b : Nat) (s : St), polls P q b s < b → pop P q (runQ P q b s) = none := by
+  intro b
+  induction b with
+  | zero => intro s h; simp at h
+  | succ b ih =>
+    intro s h
+    cases hq : pop P q s with
+    | none => rw [runQ_of_empty P q _ s hq]; exact hq
+    | some x =>
+      rw [runQ_cons P q b s x hq]
+      rw [polls_cons P q b s x hq] at h
+      exact ih _ (by omega)
+
+/-- once `next_task()` finds nothing within `n` polls, a larger budget changes nothing -/
 theorem drains_mono (P : Params) (q : Kind) :
-    ∀ (n : Nat) (s : St) (m : Nat), queue q (runQ P q n s) = [] → n ≤ m → runQ P q m s = runQ P q n s := by
+    ∀ (n : Nat) (s : St) (m : Nat), pop P q (runQ P q n s) = none → n ≤ m → runQ P q m s = runQ P q n s := by
   intro n
   induction n with
   | zero =>
     intro s m h _
-    have h' : queue q s = [] := h
+    have h' : pop P q s = none := h
     rw [runQ_of_empty P q m s h']; rfl
   | succ n ih =>
     intro s m h hm
-    cases hq : queue q s with
-    | nil => rw [runQ_of_empty P q m s hq, runQ_of_empty P q (n + 1) s hq]
-    | cons e r =>
+    cases hq : pop P q s with
+    | none => rw [runQ_of_empty P q m s hq, runQ_of_empty P q (n + 1) s hq]
+    | some x =>
       obtain ⟨m', rfl⟩ : ∃ m', m = m' + 1 := ⟨m - 1, by omega⟩
-      rw [runQ_cons P q m' s e r hq, runQ_cons P q n s e r hq]
-      rw [runQ_cons P q n s e r hq] at h
+      rw [runQ_cons P q m' s x hq, runQ_cons P q n s x hq]
+      rw [runQ_cons P q n s x hq] at h
       exact ih (step P q s) m' h (by omega)
 
 theorem need_iff (P : Params) (q : Kind) (s : St) (n b : Nat) (hn : Need P q s n) :
-    queue q (runQ P q b s) = [] ↔ n ≤ b := by
+    pop P q (runQ P q b s) = none ↔ n ≤ b := by
   constructor
   · intro h
     refine Nat.le_of_not_lt fun hlt => hn.2 b hlt h
@@ -51,7 +94,7 @@ theorem need_iff (P : Params) (q : Kind) (s : St) (n b : Nat) (hn : Need P q s n
 
 /-- if the queue drains within the budget, the number of polls made is the number needed -/
 theorem need_polls (P : Params) (q : Kind) :
-    ∀ (b : Nat) (s : St), queue q (runQ P q b s) = [] → Need P q s (polls P q b s) := by
+    ∀ (b : Nat) (s : St), pop P q (runQ P q b s) = none → Need P q s (polls P q b s) := by
   intro b
   induction b with
   | zero =>
@@ -59,22 +102,21 @@ theorem need_polls (P : Params) (q : Kind) :
     exact ⟨h, fun m hm => by simp [polls] at hm⟩
   | succ b ih =>
     intro s h
-    cases hq : queue q s with
-    | nil =>
-      have : polls P q (b + 1) s = 0 := by simp [polls, hq]
-      rw [this]
+    cases hq : pop P q s with
+    | none =>
+      rw [polls_of_empty P q _ s hq]
       exact ⟨by simpa [runQ] using hq, fun m hm => by omega⟩
-    | cons e r =>
-      rw [polls_cons P q b s e r hq]
-      rw [runQ_cons P q b s e r hq] at h
+    | some x =>
+      rw [polls_cons P q b s x hq]
+      rw [runQ_cons P q b s x hq] at h
       have ih' := ih (step P q s) h
       refine ⟨?_, ?_⟩
-      · rw [runQ_cons P q _ s e r hq]; exact ih'.1
+      · rw [runQ_cons P q _ s x hq]; exact ih'.1
       · intro m hm
         cases m with
         | zero => simp [runQ, hq]
         | succ m =>
-          rw [runQ_cons P q m s e r hq]
+          rw [runQ_cons P q m s x hq]
           exact ih'.2 m (by omega)
 
 theorem need_unique (P : Params) (q : Kind) (s : St) (n m : Nat) (hn : Need P q s n) (hm : Need P q s m) :
@@ -82,6 +124,52 @@ theorem need_unique (P : Params) (q : Kind) (s : St) (n m : Nat) (hn : Need P q 
   have h1 := (need_iff P q s n m hn).1 hm.1
   have h2 := (need_iff P q s m n hm).1 hn.1
   omega
+
+/-! ### what `pop` does -/
+
+theorem pop_none_loc (P : Params) (s : St) : pop P .loc s = none ↔ s.lq = [] := by
+  unfold pop
+  cases s.lq <;> simp
+
+theorem pop_none_rt (P : Params) (s : St) : pop P .rt s = none ↔ s.rq = [] ∧ s.iq = [] := by
+  unfold pop
+  cases s.rq <;> cases s.iq <;> simp <;> split <;> simp
+
+/-- a successful `pop` removes the head `e` of one of the three queues, ticks (runtime only) and changes nothing
+else -/
+theorem pop_some (P : Params) (q : Kind) (s s' : St) (e : Entry) (h : pop P q s = some (e, s')) :
+    (∃ r, s.rq = e :: r ∧ s' = { s with rq := r, tick := s.tick + 1 }) ∨
+    (∃ r, s.iq = e :: r ∧ s' = { s with iq := r, tick := s.tick + 1 }) ∨
+    (∃ r, s.lq = e :: r ∧ s' = { s with lq := r }) := by
+  unfold pop at h
+  cases q with
+  | loc =>
+    cases hl : s.lq with
+    | nil => simp [hl] at h
+    | cons a r =>
+      simp [hl] at h
+      exact Or.inr (Or.inr ⟨r, by rw [h.1], h.2.symm⟩)
+  | rt =>
+    simp only at h
+    cases hr : s.rq with
+    | nil =>
+      cases hi : s.iq with
+      | nil => simp [hr, hi] at h
+      | cons a r =>
+        simp [hr, hi] at h
+        exact Or.inr (Or.inl ⟨r, by rw [h.1], h.2.symm⟩)
+    | cons a r =>
+      cases hi : s.iq with
+      | nil =>
+        simp [hr, hi] at h
+        exact Or.inl ⟨r, by rw [h.1], h.2.symm⟩
+      | cons a' r' =>
+        simp [hr, hi] at h
+        split at h
+        · simp only [Option.some.injEq, Prod.mk.injEq] at h
+          exact Or.inr (Or.inl ⟨r', by rw [h.1], by rw [← h.2, ← hr]⟩)
+        · simp only [Option.some.injEq, Prod.mk.injEq] at h
+          exact Or.inl ⟨r, by rw [h.1], by rw [← h.2, ← hi]⟩
 
 /-! ### flush -/
 
@@ -94,26 +182,34 @@ theorem foldl_push_dq (l : List Entry) (f : Entry → Entry) :
     simp only [List.foldl_cons]
     rw [ih]
     unfold pushEntry
-    cases (f a).kind <;> rfl
+    cases (f a).kind <;> simp only <;> split <;> rfl
+
+theorem qlen_pushEntry (s : St) (e : Entry) :
+    (pushEntry s e).rq.length + (pushEntry s e).iq.length + (pushEntry s e).lq.length
+      = s.rq.length + s.iq.length + s.lq.length + 1 := by
+  unfold pushEntry
+  cases e.kind <;> simp only <;> split <;> simp <;> omega
 
 theorem foldl_push_len (l : List Entry) (f : Entry → Entry) :
     ∀ s : St, (l.foldl (fun s e => pushEntry s (f e)) s).rq.length
-        + (l.foldl (fun s e => pushEntry s (f e)) s).lq.length = s.rq.length + s.lq.length + l.length := by
+        + (l.foldl (fun s e => pushEntry s (f e)) s).iq.length
+        + (l.foldl (fun s e => pushEntry s (f e)) s).lq.length
+        = s.rq.length + s.iq.length + s.lq.length + l.length := by
   induction l with
   | nil => intro s; simp
   | cons a l ih =>
     intro s
     simp only [List.foldl_cons, List.length_cons]
-    rw [ih]
-    unfold pushEntry
-    cases (f a).kind <;> simp <;> omega
+    rw [ih, qlen_pushEntry]
+    omega
 
 theorem flush_dq (s : St) : (flush s).dq = [] := by
   unfold flush
   rw [foldl_push_dq]
 
 theorem flush_len (s : St) :
-    (flush s).rq.length + (flush s).lq.length = s.rq.length + s.lq.length + s.dq.length := by
+    (flush s).rq.length + (flush s).iq.length + (flush s).lq.length
+      = s.rq.length + s.iq.length + s.lq.length + s.dq.length := by
   unfold flush
   rw [foldl_push_len]
   simp
@@ -123,14 +219,15 @@ theorem quiet_flush_iff (s : St) : Quiet (flush s) ↔ Quiet s := by
   have hd := flush_dq s
   unfold Quiet
   constructor
-  · rintro ⟨h1, h2, _⟩
-    rw [h1, h2] at h
-    simp only [List.length_nil] at h
-    refine ⟨List.eq_nil_of_length_eq_zero (by omega), List.eq_nil_of_length_eq_zero (by omega),
-      List.eq_nil_of_length_eq_zero (by omega)⟩
-  · rintro ⟨h1, h2, h3⟩
+  · rintro ⟨h1, h2, h3, _⟩
     rw [h1, h2, h3] at h
     simp only [List.length_nil] at h
-    exact ⟨List.eq_nil_of_length_eq_zero (by omega), List.eq_nil_of_length_eq_zero (by omega), hd⟩
+    refine ⟨List.eq_nil_of_length_eq_zero (by omega), List.eq_nil_of_length_eq_zero (by omega),
+      List.eq_nil_of_length_eq_zero (by omega), List.eq_nil_of_length_eq_zero (by omega)⟩
+  · rintro ⟨h1, h2, h3, h4⟩
+    rw [h1, h2, h3, h4] at h
+    simp only [List.length_nil] at h
+    exact ⟨List.eq_nil_of_length_eq_zero (by omega), List.eq_nil_of_length_eq_zero (by omega),
+      List.eq_nil_of_length_eq_zero (by omega), hd⟩
 
 end Exec
